@@ -4,7 +4,8 @@ PROPERTIES = {
     "C10": dict(
         modules=["frontend"],
         level="other",
-        claim="proof part: get_expr_name / get_invalid_target total over the grammar-derived universe of expression classes; the generated "
+        claim="proof part: get_expr_name / get_invalid_target total over the grammar-derived universe of expression classes; _build_syntax_error and "
+        "check_fstring_conversion never fail with an internal exception; the generated "
         "scenic_temporal_group recogniser accepts a group before every token of FOLLOW(scenic_temporal_inversion); the translator restores the "
         "veneer activity on every exit; visitor census of the compiler; makeSyntaxError. Totality of the generated parser on all texts is NOT proved "
         "(bounded stand-in).",
@@ -13,8 +14,14 @@ PROPERTIES = {
             "veneer.activate raises only before touching `activity`; deactivate decrements then asserts (interface contract; veneer's own contracts belong to C14)",
             "pegen Parser.expect/positive_lookahead/_mark/_reset are a token cursor; @memoize transparent",
             "FIRST/FOLLOW and the value-flow census read scenic.gram as a CFG (look-aheads zero-width, invalid_* never succeed)",
+            "pegen Tokenizer.get_lines raises KeyError for lines on which no token starts; tokens are tokenize.TokenInfo tuples",
+            "_build_syntax_error checked for error spans of up to 4 lines (every pattern of token-free lines)",
         ],
         not_reached=["totality / termination of the generated parser and the tokenizer on every text"],
-        bounded=[],
+        bounded=[
+            "standins/frontend_mutants.py: real translator._scenarioFromStream (execution phase stubbed) on token-level mutants (delete/insert/replace/swap/re-indent/truncate, "
+            "VERIF_SEED) of examples/**/*.scenic and of the Scenic examples quoted in docs/reference; oracle: ScenicSyntaxError family or success, 1 <= lineno <= lines, veneer inactive, "
+            "20 s timeout; quick tier 20 files x (1 + 3 mutants) + every docs example x (1 + 1) + 5 fixed regression inputs; thorough tier every file x 12, docs x 6",
+        ],
     )
 }
